@@ -15,7 +15,7 @@ Not decided: that the reported length equals the target's true distance (network
 import re
 
 from .common import *
-from ..tables import cdec, cwant
+from ..tables import cdec, cwant, canon
 from .state_common import *
 from ..callgraph import CallGraph
 from ..vra import Lin
@@ -134,6 +134,11 @@ def run(chk, tier):
         d = [(vshow(a), v) for a, v, _ in o.st.decisions]
         w = [vshow(e[3]) for e in o.st.events if e[0] == 'write' and e[2] == 'lowest_ttl']
         cd = cdec(o)
+        if 'self.lowest_ttl' in cd:
+            # an integer `match self.lowest_ttl { 0 => .., other => .. }` decides the same comparison
+            mv = cd.pop('self.lowest_ttl')
+            k0 = canon('Eq(self.lowest_ttl, 0)', 1)[0]
+            cd[k0] = 1 if mv == 0 else 0 if (isinstance(mv, tuple) and mv[0] == 'ne' and 0 in set(mv[1])) else mv
         if cd == cwant([('Eq(self.lowest_ttl, 0)', 1)]):
             rows['unset'] = w == ['ttl.0']
         elif cd == cwant([('Eq(self.lowest_ttl, 0)', 0)]):
